@@ -1,4 +1,4 @@
-"""pyvc.stmts -- statements, loops, exceptions, and the per-function verification driver."""
+"""pvc.stmts -- statements, loops, exceptions, and the per-function verification driver."""
 from __future__ import annotations
 import ast
 from .smt import *
@@ -14,8 +14,8 @@ class StmtMixin:
 
     # ------------------------------------------------------------ assignment
     def assign(self, tgt, val, st):
-        if isinstance(val, tuple) and val and val[0] == "empty":
-            val = self.typed_empty(tgt, val[1], st)
+        if isinstance(val, EmptyV):
+            val = self.typed_empty(tgt, val.kind, st)
         if isinstance(tgt, ast.Name):
             st.env[tgt.id] = val
             if isinstance(val, T) and val.cls:
@@ -126,7 +126,7 @@ class StmtMixin:
             if s.value is not None:
                 v = self.ev(s.value, st)
                 if isinstance(s.value, (ast.List, ast.Dict)) and not (s.value.elts if isinstance(s.value, ast.List) else s.value.keys):
-                    v = ("empty", "list" if isinstance(s.value, ast.List) else "dict")
+                    v = EmptyV("list" if isinstance(s.value, ast.List) else "dict")
                 self.assign(s.target, v, st)
             return
         if isinstance(s, ast.AugAssign):
